@@ -1552,3 +1552,9 @@ benign_patch("refactor_s12_B_13", "benign/set12_B_13_file_metadata_serialiser_na
 benign_patch("refactor_s12_B_14", "benign/set12_B_14_version_manifest_serialiser_is_some_unwrap_to_if_let.diff", note='version_manifest_serialiser_is_some_unwrap_to_if_let (round-12 anchors, set B)')
 mut("revert_D28", ["C08"], "GRD-4|compaction::worker::CompactionWorker::compact_tables", patch="revert_D28_compaction_appends_behind_a_failed_manifest_write.diff",
     note="a table compaction keeps appending to the manifest behind a failed (torn) append of a flush that ran inside it: the database cannot be reopened (defect D28)")
+mut("sep_successor_guard_or", ["C13", "C01"], "SEP-1|<&key::InternalKey as utils::bytes::BinarySeparable>::find_shortest_successor", patch="sep_successor_guard_or.diff",
+    note="successor guard with <= on both tests: an all-0xff user key is 'shortened' to itself at MAX_SEQUENCE_NUMBER (sorts before the last key of the table; the assert in front of it fires on the flush thread)")
+mut("sep_separator_only_shorter", ["C13", "C01"], "SEP-1|<&key::InternalKey as utils::bytes::BinarySeparable>::find_shortest_separator", patch="sep_separator_only_shorter.diff",
+    note="separator accepted as soon as it is shorter")
+benign_patch("refactor_s12_06", "benign/set12_06_output_level_helper.diff", note="CompactionManifest::output_level() helper used for every `level + 1` (correct twin of seed C03-W; PAIR-14 had read `output_level() + 1` as a parent-level query)")
+benign_patch("refactor_s12_07", "benign/set12_07_write_snapshot_enumerate.diff", note="write_snapshot: one read lock, `for (level, files) in version.files.iter().enumerate()` (correct twin of seed C10-W)")
